@@ -18,16 +18,26 @@ def oracle(src, blk, rng):
     p = interp.Prog(cfg)
     funcs = ox.funcs_of(blk)
     nodes = [l for l in blk if l.startswith("NODE ")]
-    return ox.check_functions(p, funcs, None, nodes)
+    e = ox.check_functions(p, funcs, None, nodes)
+    if e:
+        return e
+    e, cls = ox.check_sharing(p, [l for l in blk if l.startswith("LINT ")])
+    SHARING[cls] = SHARING.get(cls, 0) + 1
+    return e
+
+
+SHARING = {}
 
 
 def run(res, tier, seed):
     proof_ok = proof_stage(res, "Rva.Proofs.C11d", THEOREMS, extra_modules=["Rva.Proofs.C11", "Rva.Proofs.C11b", "Rva.Proofs.C11c"])
     res.cov["rule"] = ("generated programs + corpus (several labels per entry, shared tails, recursion, multiple "
                        "returns, handlers with ret and uret); on the real finished graph: function entries = "
+                       "called labels, sharing reported iff it exists (a tail shared only through jumps is known finding F-16), "
                        "called labels, body = reachable set (independent DFS), owners consistent, single exit "
                        "reached by every other return; traces diffed against the Lean model")
-    first, corr = run_graph_property(res, tier, seed, "parse,cfg", oracle)
+    first, corr = run_graph_property(res, tier, seed, "parse,cfg,lints", oracle)
+    res.cov.setdefault("input_distribution", {})["sharing_clause"] = dict(SHARING)
     # hypothesis of `markStep_body` / `body_is_reachable_set` ("the walk finished within its fuel")
     # is decided by the model for every generated program (`markAllDone`, stage `good`)
     import random
